@@ -214,6 +214,33 @@ class CrashLab:
             h.close()
             ev.append({"ev": "close", "dsize": self.path.stat().st_size - bof})
             ro_pass()
+        elif kind == "same_ara":
+            # the SAME handle object through three sessions: append (the torn tail is discarded), read, append + put -
+            # what a long-lived UkvCollectionBackend does with its cached UKVFile in writing(), reading(), writing()
+            k, v = b"k-third-session", b"v3"
+            h = None
+            for step, mode in enumerate(("a", "r", "a")):
+                size = self.path.stat().st_size
+                try:
+                    if h is None:
+                        h = self.UKVFile(self.path, mode)
+                    else:
+                        h.open(mode)
+                except Exception as e:
+                    ev.append({"ev": "open", "mode": mode, "out": type(e).__name__, "keys": [], "gets": {}, "dsize": size - bof})
+                    return ev, info
+                keys, gets = observe_open(h, kt)
+                ev.append({"ev": "open", "mode": mode, "out": "ok", "keys": keys, "gets": gets, "dsize": size - bof})
+                if step == 2:
+                    try:
+                        h.put(k, v)
+                        out = "ok"
+                    except Exception:
+                        out = "refused"
+                    ev.append({"ev": "put", "k": kt.tok(k), "kl": len(k), "vl": len(v), "vd": vd(v), "out": out})
+                h.close()
+                ev.append({"ev": "close", "dsize": self.path.stat().st_size - bof})
+            ro_pass()
         elif kind == "coll_rw":
             from molli.storage import Collection, UkvCollectionBackend
             import atexit
